@@ -50,10 +50,77 @@ theorem cIntersect_length_le (g : Geom α) (ca : α) (pts : List (Option (α × 
     (cIntersect g ca pts).length ≤ (g.nrows * g.ncols).toNat := by
   have hnd := cIntersect_keys_nodup g ca pts
   have hv := cIntersect_keys_valid g ca pts
-  generalize (cIntersect g ca pts).map Prod.fst = ks at hnd hv
   have hlen : (cIntersect g ca pts).length = ((cIntersect g ca pts).map Prod.fst).length := by simp
-  sorry
+  rw [hlen]
+  generalize (cIntersect g ca pts).map Prod.fst = ks at hnd hv
+  have hv' : ∀ k ∈ ks, 0 ≤ k ∧ k < g.nrows * g.ncols := fun k hk => validCell_iff.1 (hv k hk)
+  generalize g.nrows * g.ncols = n at hv'
+  have h1 : (ks.map Int.toNat).Nodup := by
+    apply List.Nodup.map_on _ hnd
+    intro a ha b hb hab
+    have := hv' a ha
+    have := hv' b hb
+    omega
+  have h2 : ks.map Int.toNat ⊆ List.range n.toNat := by
+    intro x hx
+    obtain ⟨k, hk, rfl⟩ := List.mem_map.1 hx
+    have := hv' k hk
+    rw [List.mem_range]
+    omega
+  have := (h1.subperm h2).length_le
+  simpa using this
 
 end Generic
+
+/-! ### B. weights of `c_intersect` (exact arithmetic) -/
+
+section Weights
+variable {α : Type} [Field α] [LinearOrder α] [IsStrictOrderedRing α] [FloorRing α]
+
+/-- the weight of a listed cell is the ratio of cell areas times the number of points `c_coord2cell` maps to it,
+and that number is at least one -/
+theorem cIntersect_weight {g : Geom α} {ca : α} {pts : List (Option (α × α))} {k : Int} {w : α}
+    (h : (k, w) ∈ cIntersect g ca pts) :
+    w = (ca / g.csz) ^ 2 * (((pts.map (cellOfPt g)).count k : Nat) : α) ∧
+      1 ≤ (pts.map (cellOfPt g)).count k := by
+  have hk : k ∈ (cIntersect g ca pts).map Prod.fst := List.mem_map.2 ⟨(k, w), h, rfl⟩
+  obtain ⟨h0, p, hp, hpk⟩ := (cIntersect_mem_keys_iff g ca pts k).1 hk
+  have hcount : (hits g pts).count k = (pts.map (cellOfPt g)).count k := by
+    unfold hits
+    rw [List.count_filter]
+    simpa using h0
+  refine ⟨?_, ?_⟩
+  · have hw := wOf_of_mem (cIntersect_keys_nodup g ca pts) h
+    rw [cIntersect_eq, wOf_foldl_bump, hcount] at hw
+    rw [← hw]
+    simp [wOf, areafactor, sq]
+  · exact List.count_pos_iff.2 (List.mem_map.2 ⟨p, hp, hpk⟩)
+
+/-- weights times grid-cell area sum to (number of accepted points) times the catchment-cell area -/
+theorem cIntersect_total {g : Geom α} (hcsz : g.csz ≠ 0) (ca : α) (pts : List (Option (α × α))) :
+    ((cIntersect g ca pts).map fun kw => kw.2 * (g.csz * g.csz)).sum =
+      ((pts.countP fun p => decide (0 ≤ cellOfPt g p) : Nat) : α) * (ca * ca) := by
+  have h1 : ((cIntersect g ca pts).map fun kw => kw.2 * (g.csz * g.csz)).sum =
+      sumW (cIntersect g ca pts) * (g.csz * g.csz) := sum_map_snd_mul _ _
+  have h2 : (hits g pts).length = pts.countP fun p => decide (0 ≤ cellOfPt g p) := by
+    unfold hits
+    rw [← List.countP_eq_length_filter, List.countP_map]
+    rfl
+  rw [h1, cIntersect_eq, sumW_foldl_bump, h2]
+  simp only [sumW, List.map_nil, List.sum_nil, zero_add, areafactor]
+  field_simp
+
+/-- a point is accepted exactly when it lies in the extent of the grid (`xlim × ylim`, half-open) -/
+theorem cellOfPt_nonneg_iff {g : Geom α} (hcsz : 0 < g.csz) (x y : α) :
+    0 ≤ cellOfPt g (some (x, y)) ↔ InExtent g x y :=
+  coord2cell_nonneg_iff hcsz
+
+/-- and it is counted for the cell whose (half-open) footprint contains it, for no other -/
+theorem cellOfPt_eq_iff {g : Geom α} (hcsz : 0 < g.csz) (hc : 0 < g.ncols) {c : Int}
+    (hv : validCell g.nrows g.ncols c = true) (x y : α) :
+    cellOfPt g (some (x, y)) = c ↔ InFootprint g c x y :=
+  coord2cell_eq_iff hcsz hc hv
+
+end Weights
 
 end HydroVerif.C16
